@@ -2382,6 +2382,11 @@ export abstract class BaseRefRuntype extends BaseRuntype {
   }
   hash256(ctx: Hash256Context): void {
     const to = this.getNamedRuntypes()[this.refName];
+    if (to instanceof BaseRefRuntype) {
+      // an alias of another named type is transparent: it must not take part in the cycle numbering
+      to.hash256(ctx);
+      return;
+    }
     const activeId = ctx.active.get(to);
     if (activeId != null) {
       ctx.writer.updateTag("cycleRef");
